@@ -7,11 +7,13 @@ Input (one command per line):
   init <foreign 0|1> <nthreads>      reset the shared state             -> `ok ;; <state>`
   protect <t> <value>                `protect_via_deepcopy(value)` by thread t, predicted
                                      event trace                         -> `<ok|err> ;; <event>* ;; <state>`
+  deepcopy <t> <value>               `copy.deepcopy(value)` (no outer guard) by thread t   -> same format
+  external <0|1>                     another library sets/removes its reducer (quiescent points only)
   events <t> <E|X|C>*                validate an observed event trace of thread t against `step`
                                                                          -> `<ok|refused@i> ;; <event>* ;; <state>`
   sched <foreign> | <value> | ... | <tid>*   thread programs `protect(value_i)` under a schedule
                                                                          -> `<event>* ;; <status>* ;; <state>`
-Value syntax (prefix): `a` atom, `m` module, `L <n> v1..vn`, `I <dnc> <postCopyRaises> <n> (<dnc_i> v_i)*`.
+Value syntax (prefix): `a` atom, `m` module, `b` uncopyable, `L <n> v1..vn`, `I <dnc> <postCopyRaises> <n> (<dnc_i> v_i)*`.
 Event: `<t><kind>:<table>:<refcount>:<patched>`; state: `table=.. rc=.. patched=.. depth=..`.
 -/
 open SpecVerif.C20
@@ -30,6 +32,7 @@ mutual
 partial def parseVal : List String → Option (Val × List String)
   | "a" :: r => some (.atom, r)
   | "m" :: r => some (.module, r)
+  | "b" :: r => some (.bad, r)
   | "L" :: n :: r => do
     let n ← n.toNat?
     let (xs, r) ← parseVals n r
@@ -115,6 +118,18 @@ def handle (s : Sys) (line : String) : Sys × String :=
       let chk := (execSeq t (protectI v) s) == (s', ok)
       (s', (if ok then "ok" else "err") ++ (if chk then "" else "!MISMATCH") ++ " ;; " ++ " ".intercalate evs ++ " ;; " ++ showState s')
     | _ => (s, "bad-value")
+  | "deepcopy" :: t :: r =>
+    match parseVal r with
+    | some (v, []) =>
+      let t := t.toNat?.getD 0
+      let (s', ok, evs) := traceSeq t (deepI v) s []
+      let chk := (execSeq t (deepI v) s) == (s', ok)
+      (s', (if ok then "ok" else "err") ++ (if chk then "" else "!MISMATCH") ++ " ;; " ++ " ".intercalate evs ++ " ;; " ++ showState s')
+    | _ => (s, "bad-value")
+  | ["external", f] =>
+    match step s (.external (f == "1")) with
+    | some s' => (s', "ok ;;  ;; " ++ showState s')
+    | none => (s, "refused ;;  ;; " ++ showState s)
   | "events" :: t :: r =>
     let t := t.toNat?.getD 0
     let (s', bad, evs) := validate t r 0 s []
@@ -128,7 +143,9 @@ def handle (s : Sys) (line : String) : Sys × String :=
     let c0 := Conf.start (f == "1") progs
     let (c, evs) := sched.foldl (fun (acc : Conf × List String) t =>
         let (c', e) := tick acc.1 t
-        (c', acc.2 ++ [showEv t (showE e) c'.sys])) (c0, [])
+        -- C/F are lookups by a thread that holds no lock: only the table is compared there
+        let shown := if e == .C || e == .F then s!"{t}{showE e}:{showTable c'.sys.table}" else showEv t (showE e) c'.sys
+        (c', acc.2 ++ [shown])) (c0, [])
     (s, " ".intercalate evs ++ " ;; " ++ ",".intercalate (c.stat.map showStat) ++ " ;; " ++ showState c.sys)
   | _ => (s, "bad-op")
 
